@@ -18,3 +18,307 @@ def run(ctx):
     for l in spatial.LAYERS:
         ctx.guard("R08.4", l, spatial.flat_acceptance, ctx, "R08.4", l)
     ctx.floor("R08.4", 6, "guard + reinterpretation in three constructors")
+
+
+# ---------------------------------------------------------------------------------------------
+from .. import mac, e3
+from ..e1 import Rat, rewrite
+from .common import top_stmts_of, mentions_field
+
+RULES.update({
+    "R08.1": "announced = produced (symbolic in all parameters): the per-axis formula of calculate_output_size equals the extent the "
+             "forward pass allocates and fills - convolution ((in + 2p - d(k-1) - 1)/s + 1 vs convolve's oh with in := padded extent), "
+             "transposed convolution ((in-1)s + k - 2p), max-pool (writes y[c][h/s][w/s], h stepping by s over 0..in-k+1, into a buffer "
+             "allocated from self.outputs = (in-k)/s + 1); channels = number of kernels = filters; the substitutions are themselves "
+             "checked (forward pads to in + 2p, pad3d returns the requested extent, kernels are created with (ic, k.0, k.1), create "
+             "stores the same stride/padding/dilation it announces with)",
+    "R08.2": "gradient shapes = parameter shapes: kernel gradients are allocated as filters x channels x kh x kw, input gradients as "
+             "the input's extents; dense weights are (outputs x inputs) and dW = delta (x) input; optimizer state is allocated from the "
+             "same shapes (set_optimizer / copy_optimizer)",
+    "R08.3": "builder chaining: dense/convolution/deconvolution/maxpool/feedback derive the new layer's input shape from the previous "
+             "layer's *outputs* (self.input for the first layer) for all five layer variants; dense after a spatial layer sets its "
+             "flatten flag and uses channels*height*width of the previous outputs",
+    "R08.5": "axis typing of the size formulas and constructors (no height/width mix-up)",
+})
+
+
+def _subst(x, table):
+    def rule(name, args, atom):
+        if name is None and atom in table:
+            return table[atom]
+        return None
+    return rewrite(x, rule)
+
+
+def _announced(c, fn, tuple3):
+    """normalise `height`/`width` of calculate_output_size with canonical parameter atoms"""
+    pn = [pat_binds(p)[0] for p in fn["params"]]
+    stmts = top_stmts_of(fn["body"])
+    env = {}
+    canon = {"kernel": "K", "stride": "S", "padding": "P", "dilation": "D"}
+    N = e1.Norm(c, env)
+    out = {}
+    for s in stmts:
+        if s.get("k") == "let" and s["pat"].get("k") == "bind" and s["pat"]["name"] in ("height", "width"):
+            v = N.norm(s["init"])
+            table = {}
+            for a in e1._all_atoms(v):
+                base, _, comp = a.rpartition(".")
+                if base in canon:
+                    table[a] = Rat.atom(canon[base] + comp)
+                elif base == "input":
+                    idx = int(comp)
+                    ax = {0: "IH", 1: "IW"}[idx] if not tuple3 else {0: "IC", 1: "IH", 2: "IW"}[idx]
+                    table[a] = Rat.atom(ax)
+            out[s["pat"]["name"]] = _subst(v, table)
+    # the input tuple must be (he, wi) / (ch, he, wi) from Shape::Triple, in that order
+    ok_tuple = False
+    for x in walk(fn["body"]):
+        if x.get("k") == "match":
+            for a in x["arms"]:
+                vp, binds = e4.arm_variant(a)
+                if vp == "tensor::Shape::Triple":
+                    body = strip(a["body"])
+                    if body.get("k") == "tup":
+                        hs = [e4.local_hid(z) for z in body["xs"]]
+                        want = [h for (_, h) in binds]
+                        pt = a["pat"]
+                        while pt.get("k") in ("ref", "deref"):
+                            pt = pt["p"]
+                        allb = [pat_binds(q)[0][1] if pat_binds(q) else None for q in pt["ps"]]
+                        ok_tuple = hs == (allb if tuple3 else allb[1:])
+    return out, ok_tuple
+
+
+def r1(ctx):
+    c = ctx.crate
+    S = {"self.stride.0": Rat.atom("S0"), "self.stride.1": Rat.atom("S1"), "self.dilation.0": Rat.atom("D0"), "self.dilation.1": Rat.atom("D1"),
+         "self.padding.0": Rat.atom("P0"), "self.padding.1": Rat.atom("P1"), "self.kernel.0": Rat.atom("K0"), "self.kernel.1": Rat.atom("K1")}
+    IH, IW = Rat.atom("IH"), Rat.atom("IW")
+    # ---------------- convolution
+    cfn = ctx.fn("convolution::Convolution::calculate_output_size")
+    ann, okt = _announced(c, cfn, False)
+    ctx.check("R08.1", "Convolution:input-tuple", okt, "input-tuple-not-(he,wi)", c.loc(cfn), "input = (he, wi)")
+    ex = mac.extract(c, ctx.fn("convolution::Convolution::convolve"))
+    y = [v for h, v in ex.allocs.items() if ex.names[h] == "y"]
+    if not y or len(y[0]) != 3:
+        raise Unestablished("convolve does not allocate y[f][oh][ow]", "convolution::Convolution::convolve")
+    kf, oh, ow = y[0]   # outermost first
+    t = dict(S)
+    t.update({"len(x[0])": IH + 2 * Rat.atom("P0"), "len(x[0][0])": IW + 2 * Rat.atom("P1"), "len(kernels)": Rat.atom("F"),
+              "len(kernels[0][0])": Rat.atom("K0"), "len(kernels[0][0][0])": Rat.atom("K1")})
+    ph_, pw_ = _subst(oh, t), _subst(ow, t)
+    for nm, a_, p_ in (("height", ann.get("height"), ph_), ("width", ann.get("width"), pw_)):
+        ctx.check("R08.1", "Convolution:" + nm, a_ is not None and a_ == p_, "announced-differs-from-produced:%s~%s" % (a_, p_), c.loc(cfn),
+                  "announced %s = produced = %s" % (nm, a_),
+                  "Convolution announces %s `%s` but convolve allocates and fills `%s` (with the padded input extent in + 2p)" % (nm, a_, p_))
+    ctx.check("R08.1", "Convolution:channels", _subst(kf, t) == Rat.atom("F"), "output-channels:" + str(kf), "convolution::Convolution::convolve", "output channels = number of kernels")
+    # substitution facts
+    ffn = ctx.fn("convolution::Convolution::forward")
+    fex = mac.extract(c, ffn)
+    pads = [x for x in walk(ffn["body"]) if x.get("k") == "call" and x["callee"] == "tensor::pad3d"]
+    okp = False
+    if len(pads) == 1:
+        tup = strip(pads[0]["args"][1])
+        t2 = dict(S)
+        for n_ in ("tensor", "x", "input"):
+            t2["len(%s[0])" % n_] = IH
+            t2["len(%s[0][0])" % n_] = IW
+        t2["self.inputs.1"] = IH
+        t2["self.inputs.2"] = IW
+        vr = [_subst(e1.Norm(c, fex.env).norm(z), t2) for z in tup["xs"]]
+        vals = [str(v) for v in vr]
+        okp = vr == [IH + 2 * Rat.atom("P0"), IW + 2 * Rat.atom("P1")]
+        ctx.check("R08.1", "Convolution:forward-pads-to-in+2p", okp, "padded-extent:" + ",".join(vals), c.loc(ffn, pads[0]), "x = pad3d(x, (ih + 2p0, iw + 2p1))",
+                  "forward pads the input to (%s)" % ", ".join(vals))
+    conv_calls = [x for x in walk(ffn["body"]) if x.get("k") == "mcall" and x["callee"] == "convolution::Convolution::convolve"]
+    ctx.check("R08.1", "Convolution:convolve-gets-padded-input", len(conv_calls) == 1 and len(pads) == 1 and pretty(strip(conv_calls[0]["args"][0])) == pretty(strip(pads[0]["args"][0])),
+              "convolve-input", c.loc(ffn), "convolve(&x, ..) with the padded x")
+    pex = mac.extract(c, ctx.fn("tensor::pad3d"))
+    pa = [v for h, v in pex.allocs.items() if pex.names[h] == "padded"]
+    ctx.check("R08.1", "pad3d:returns-requested-extent", bool(pa) and [str(z) for z in pa[0]] == ["len(data)", "into.0", "into.1"], "pad3d-extent:" + str(pa), "tensor::pad3d",
+              "pad3d allocates data.len() x into.0 x into.1")
+    for lname, lpath in (("Convolution", "convolution::Convolution"), ("Deconvolution", "deconvolution::Deconvolution")):
+        cr = ctx.fn(lpath + "::create")
+        # kernels: (0..filters).map(|_| Tensor::random(Shape::Triple(ic, kernel.0, kernel.1), ..)).collect()
+        lit = [x for x in walk(cr["body"]) if x.get("k") == "struct" and x["path"].endswith(lpath)]
+        fs = dict((a_, e_) for a_, e_ in lit[0]["fs"]) if lit else {}
+        k = strip(fs.get("kernels")) if fs.get("kernels") is not None else None
+        okk = False
+        if k is not None and k.get("k") == "mcall" and k["name"] == "collect":
+            mp = strip(k["recv"])
+            rng = strip(mp["recv"]) if mp.get("k") == "mcall" else None
+            if rng is not None and rng.get("k") == "struct" and rng["path"] == "std::ops::Range":
+                rf = dict((a_, e_) for a_, e_ in rng["fs"])
+                sh = [x for x in walk(mp["args"][0]) if x.get("k") == "call" and x["callee"] == "tensor::Shape::Triple"]
+                okk = pretty(strip(rf["end"])) == "filters" and sh and [pretty(strip(z)) for z in sh[0]["args"]] == ["ic", "kernel.0", "kernel.1"]
+        ctx.check("R08.1", lname + ":kernels-created-as-filters-x-(ic,k0,k1)", okk, "kernel-construction", c.loc(cr), "kernels = filters x Triple(ic, kernel.0, kernel.1)")
+        same = all(pretty(strip(fs[f])) == f for f in ("stride", "padding") if f in fs) and ("dilation" not in fs or pretty(strip(fs["dilation"])) == "dilation")
+        ctx.check("R08.1", lname + ":stores-announced-geometry", same and "stride" in fs, "geometry-fields", c.loc(cr), "stride/padding/dilation fields = the parameters used for the announcement")
+        calls_ = [x for x in walk(cr["body"]) if x.get("k") == "call" and x["callee"].endswith("::calculate_output_size")]
+        want = ["inputs", "filters", "kernel", "stride", "padding"] + (["dilation"] if lname == "Convolution" else [])
+        got = [pretty(strip(z)) for z in calls_[0]["args"]] if calls_ else []
+        ctx.check("R08.1", lname + ":announcement-arguments", got == want, "announcement-arguments:" + ",".join(got), c.loc(cr), "calculate_output_size(%s)" % ", ".join(want))
+        ctx.check("R08.1", lname + ":outputs-field-is-announcement", pretty(strip(fs.get("outputs"))) == "outputs" if fs.get("outputs") is not None else False, "outputs-field", c.loc(cr), "outputs: outputs")
+    # ---------------- deconvolution
+    dfn = ctx.fn("deconvolution::Deconvolution::calculate_output_size")
+    ann, okt = _announced(c, dfn, True)
+    ctx.check("R08.1", "Deconvolution:input-tuple", okt, "input-tuple-not-(ch,he,wi)", c.loc(dfn), "input = (ch, he, wi)")
+    dff = ctx.fn("deconvolution::Deconvolution::forward")
+    dex = mac.extract(c, dff)
+    y = [v for h, v in dex.allocs.items() if dex.names[h] == "y"]
+    if not y or len(y[0]) != 3:
+        raise Unestablished("Deconvolution::forward does not allocate y[k][oh][ow]", c.loc(dff))
+    kf, oh, ow = y[0]
+    t = dict(S)
+    t.update({"len(x[0])": IH, "len(x[0][0])": IW, "len(kernels)": Rat.atom("F"), "len(kernels[0][0])": Rat.atom("K0"), "len(kernels[0][0][0])": Rat.atom("K1")})
+    for nm, a_, p_ in (("height", ann.get("height"), _subst(oh, t)), ("width", ann.get("width"), _subst(ow, t))):
+        ctx.check("R08.1", "Deconvolution:" + nm, a_ is not None and a_ == p_, "announced-differs-from-produced:%s~%s" % (a_, p_), c.loc(dfn),
+                  "announced %s = produced = %s" % (nm, a_), "Deconvolution announces %s `%s` but forward allocates `%s`" % (nm, a_, p_))
+    ctx.check("R08.1", "Deconvolution:channels", _subst(kf, t) == Rat.atom("F"), "output-channels:" + str(kf), c.loc(dff), "output channels = number of kernels")
+    # ---------------- maxpool
+    mfn = ctx.fn("maxpool::Maxpool::calculate_output_size")
+    ann, okt = _announced(c, mfn, True)
+    ctx.check("R08.1", "Maxpool:input-tuple", okt, "input-tuple-not-(ch,he,wi)", c.loc(mfn), "input = (ch, he, wi)")
+    mff = ctx.fn("maxpool::Maxpool::forward")
+    mex = mac.extract(c, mff)
+    st = [s for s in mex.stmts if isinstance(s.target, mac.Access) and s.target.name == "y"]
+    if len(st) != 1:
+        raise Unestablished("Maxpool::forward: expected one store into y", c.loc(mff))
+    s = st[0]
+    t = dict(S)
+    t.update({"len(tensor[0])": IH, "len(tensor[0][0])": IW, "len(x[0])": IH, "len(x[0][0])": IW})
+    loops = {l[1]: l for l in s.loops}
+    for nm, var, ax, k_, s_ in (("height", 1, IH, Rat.atom("K0"), Rat.atom("S0")), ("width", 2, IW, Rat.atom("K1"), Rat.atom("S1"))):
+        l = s.loops[var]
+        end = _subst(l[3], t) if l[3] is not None else None
+        step = _subst(l[4], t) if l[4] is not None else None
+        idx = _subst(s.target.idx[var], t)
+        lv = Rat.atom("%s#%d" % (l[1], l[0]))
+        ok = end == ax - k_ + 1 and step == s_ and idx == e1.fn_atom("idiv", lv, s_) and ann.get(nm) == e1.fn_atom("idiv", ax - k_, s_) + 1 and str(l[2]) == "0"
+        ctx.check("R08.1", "Maxpool:" + nm, ok, "window-walk-differs-from-announced-size:%s:%s:%s" % (end, step, idx), c.loc(mff, s.node),
+                  "windows start at 0, s, 2s, .. <= in-k and are stored at start/s: the last index is (in-k)/s = announced %s - 1" % nm,
+                  "max-pool %s: loop 0..%s step %s stores at index %s, announced %s" % (nm, end, step, idx, ann.get(nm)))
+    ya = [v for h, v in mex.allocs.items() if mex.names[h] == "y"]
+    ctx.check("R08.1", "Maxpool:buffer-from-outputs", bool(ya) and [str(z) for z in ya[0]] == ["self.outputs.0", "self.outputs.1", "self.outputs.2"], "maxpool-buffer:" + str(ya), c.loc(mff),
+              "y allocated from self.outputs")
+    ctx.check("R08.1", "Maxpool:channels", "input.0" in pretty(top_stmts_of(mfn["body"])[-1]), "maxpool-channels", c.loc(mfn), "channels preserved")
+
+
+def r2(ctx):
+    c = ctx.crate
+    gex = mac.extract(c, ctx.fn("convolution::Convolution::convolve_gradients"))
+    ya = [v for h, v in gex.allocs.items() if gex.names[h] == "y"]
+    ctx.check("R08.2", "Convolution:kernel-gradient-shape", bool(ya) and [str(z) for z in ya[0]] == ["len(b)", "len(a)", "kernel.0", "kernel.1"], "kernel-gradient-alloc:" + str(ya),
+              "convolution::Convolution::convolve_gradients", "dK allocated as |delta channels| x |input channels| x kernel.0 x kernel.1")
+    bfn = ctx.fn("convolution::Convolution::backward")
+    call = [x for x in walk(bfn["body"]) if x.get("k") == "mcall" and x["callee"] == "convolution::Convolution::convolve_gradients"]
+    okc = False
+    if call:
+        kk = strip(call[0]["args"][2])
+        bex = mac.extract(c, bfn)
+        vals = [str(e1.Norm(c, bex.env).norm(z)) for z in kk["xs"]] if kk.get("k") == "tup" else []
+        okc = vals == ["self.kernels[0].shape.1", "self.kernels[0].shape.2"]
+    ctx.check("R08.2", "Convolution:kernel-extent-from-kernels", okc, "kernel-extent-argument", c.loc(bfn), "(kh, kw) from self.kernels[0].shape")
+    dex = mac.extract(c, ctx.fn("deconvolution::Deconvolution::backward"))
+    al = {dex.names[h]: [str(z) for z in v] for h, v in dex.allocs.items()}
+    ctx.check("R08.2", "Deconvolution:kernel-gradient-shape", al.get("kgradient") == ["len(kernels)", "len(kernels[0])", "len(kernels[0][0])", "len(kernels[0][0][0])"],
+              "kernel-gradient-alloc:" + str(al.get("kgradient")), "deconvolution::Deconvolution::backward", "dK allocated with the kernels' own extents")
+    ctx.check("R08.2", "Deconvolution:input-gradient-shape", al.get("igradient") == ["len(kernels[0])", "len(input[0])", "len(input[0][0])"],
+              "input-gradient-alloc:" + str(al.get("igradient")), "deconvolution::Deconvolution::backward", "dX allocated as channels x ih x iw")
+    mex = mac.extract(c, ctx.fn("maxpool::Maxpool::backward"))
+    al = {mex.names[h]: [str(z) for z in v] for h, v in mex.allocs.items()}
+    ctx.check("R08.2", "Maxpool:input-gradient-shape", al.get("igradient") == ["self.inputs.0", "self.inputs.1", "self.inputs.2"], "input-gradient-alloc:" + str(al.get("igradient")),
+              "maxpool::Maxpool::backward", "dX allocated from self.inputs")
+    dfn = ctx.fn("dense::Dense::create")
+    lit = [x for x in walk(dfn["body"]) if x.get("k") == "struct" and x["path"].endswith("dense::Dense")]
+    w = pretty(strip(dict((a_, e_) for a_, e_ in lit[0]["fs"])["weights"])) if lit else ""
+    ctx.check("R08.2", "Dense:weights-outputs-x-inputs", "tensor::Shape::Double(output, input)" in w, "dense-weight-shape:" + short(w, 80), c.loc(dfn), "weights: Double(output, input)")
+    for fpath in ("network::Network::set_optimizer", "feedback::Feedback::copy_optimizer"):
+        fn = ctx.fn(fpath)
+        short_n = fpath.split("::")[1]
+        ms = [x for x in walk(fn["body"]) if x.get("k") == "match" and any(e4.arm_variant(a)[0].startswith("network::Layer::") for a in x["arms"])]
+        if not ms:
+            raise Unestablished("no match on the layer kind in %s" % fpath, c.loc(fn))
+        for arm in ms[0]["arms"]:
+            vp, binds = e4.arm_variant(arm)
+            kind = vp.split("::")[-1]
+            txt = pretty(arm["body"])
+            if kind == "Dense":
+                ok = ("tensor::Shape::Double(output, input) => (*output, *input)" in txt and "std::vec::from_elem(std::vec::from_elem(0.0, input), output)" in txt
+                      and "std::vec::from_elem(0.0, output)" in txt and "layer.weights.shape" in txt)
+                ctx.check("R08.2", "%s:Dense-state-shape" % short_n, ok, "dense-state-allocation", c.loc(fn, arm["body"]), "state = Double(output x input), Single(output)")
+            elif kind in ("Convolution", "Deconvolution"):
+                ok = ("tensor::Shape::Triple(ch, he, wi) => (ch, he, wi)" in txt and "std::vec::from_elem(std::vec::from_elem(std::vec::from_elem(0.0, kw), kh), ch)" in txt
+                      and "layer.kernels.len()" in txt and "layer.kernels[0].shape" in txt)
+                ctx.check("R08.2", "%s:%s-state-shape" % (short_n, kind), ok, "kernel-state-allocation", c.loc(fn, arm["body"]), "state = kernels.len() x Triple(ch, kh, kw)")
+        chain = [x for x in walk(fn["body"]) if x.get("k") == "for" and mentions_field(x["iter"], "layers")]
+        ctx.check("R08.2", "%s:reverse-order" % short_n, bool(chain) and pretty(strip(chain[0]["iter"])) == "self.layers.iter().rev()", "state-order", c.loc(fn),
+                  "state allocated in reverse layer order (matches the update walk)")
+
+
+def r3(ctx):
+    c = ctx.crate
+    variants = [v["name"] for v in c.adts["network::Layer"]["variants"]]
+    for b in ("dense", "convolution", "deconvolution", "maxpool", "feedback"):
+        fn = ctx.fn("network::Network::" + b)
+        ms = [x for x in walk(fn["body"]) if x.get("k") == "match" and "self.layers.last" in pretty(x["scrut"])]
+        if not ms:
+            raise Unestablished("Network::%s does not inspect self.layers.last()" % b, c.loc(fn))
+        for m in ms:
+            seen = set()
+            for arm in m["arms"]:
+                vp, binds = e4.arm_variant(arm)
+                kind = vp.split("::")[-1]
+                if not vp.startswith("network::Layer::") or not binds:
+                    continue
+                seen.add(kind)
+                lh = binds[0][1]
+                flds = sorted({x["f"] for x in walk(arm["body"]) if x.get("k") == "field" and e4.local_hid(x["b"]) == lh})
+                inst = "%s:%s" % (b, kind)
+                where = c.loc(fn, arm["body"])
+                shape_fields = [f for f in flds if f in ("inputs", "outputs")]
+                ctx.check("R08.3", inst, shape_fields == ["outputs"], "chained-from:" + ",".join(shape_fields), where, "next inputs from previous %s.outputs" % kind,
+                          "Network::%s derives the new layer's input shape from `%s` of a preceding %s layer; it must be its outputs" % (b, ",".join(shape_fields), kind))
+                if b == "dense" and kind in ("Convolution", "Deconvolution", "Maxpool"):
+                    fl = [x for x in walk(arm["body"]) if x.get("k") == "assign" and strip(x["l"]).get("k") == "field" and strip(x["l"])["f"] == "flatten" and e4.lit_value(x["r"]) == "true"]
+                    prod = [x for x in walk(arm["body"]) if x.get("k") == "call" and x["callee"] == "tensor::Shape::Single"]
+                    okp = False
+                    if prod:
+                        pb = None
+                        for y in walk(arm["body"]):
+                            if y.get("k") == "match":
+                                for a2 in y["arms"]:
+                                    v2, b2 = e4.arm_variant(a2)
+                                    if v2 == "tensor::Shape::Triple":
+                                        pb = b2
+                        if pb and len(pb) == 3:
+                            env = {h: Rat.atom(n_) for (n_, h) in pb}
+                            val = e1.Norm(c, env).norm(prod[0]["args"][0])
+                            okp = val == Rat.atom(pb[0][0]) * Rat.atom(pb[1][0]) * Rat.atom(pb[2][0])
+                    ctx.check("R08.3", inst + ":flatten", len(fl) == 1 and okp, "dense-after-spatial:flatten=%d,product=%s" % (len(fl), okp), where,
+                              "sets flatten and uses ch*he*wi", "dense after %s must set the flatten flag and take ch*he*wi inputs" % kind)
+            for v in variants:
+                if v not in seen:
+                    ctx.bad("R08.3", "%s:%s" % (b, v), "variant-not-handled", c.loc(fn, m), "")
+        first = [x for x in walk(fn["body"]) if x.get("k") == "mcall" and x["name"] == "clone" and pretty(strip(x["recv"])) == "self.input"]
+        ctx.check("R08.3", b + ":first-layer", bool(first), "first-layer-input", c.loc(fn), "first layer takes self.input")
+    ctx.floor("R08.3", 25 + 3 + 5, "5 builders x 5 variants + 3 flatten arms + 5 first-layer facts")
+
+
+SIZE_FNS = ["convolution::Convolution::calculate_output_size", "deconvolution::Deconvolution::calculate_output_size", "maxpool::Maxpool::calculate_output_size",
+            "convolution::Convolution::create", "deconvolution::Deconvolution::create", "maxpool::Maxpool::create", "convolution::Convolution::convolve",
+            "deconvolution::Deconvolution::forward", "maxpool::Maxpool::forward", "tensor::Tensor::triple", "tensor::Tensor::quadruple", "tensor::Tensor::flatten",
+            "tensor::Tensor::reshape", "tensor::Tensor::get_triple"]
+
+_old_run = run
+
+
+def run(ctx):
+    _old_run(ctx)
+    ctx.guard("R08.1", "announced-vs-produced", r1, ctx)
+    ctx.guard("R08.2", "gradient-shapes", r2, ctx)
+    ctx.guard("R08.3", "builder-chaining", r3, ctx)
+    ctx.guard("R08.5", "axis-typing", spatial.axis_typing, ctx, "R08.5", SIZE_FNS, 120)
+    ctx.floor("R08.1", 24, "sizes, channels, substitution facts")
+    ctx.floor("R08.2", 12, "")
